@@ -107,6 +107,7 @@ def run(res, tier, broken):
                      "the literal property text) — see Props.C09.fut_zero_compartments")
     vs.campaign(res, broken, tier, "C09", "sc_evfut", SOURCES, lambda rng: scenario_params(rng, search=bool(broken)), validate,
                 sizes=SIZES)
+    native_reset(res, tier, broken)
     seen = set(res.cov.get("model_transitions", []))
     res.add_cov(model_transitions_total=len(ALL_TRANSITIONS),
                 model_transitions_uncovered=sorted(ALL_TRANSITIONS - seen - UNREACHABLE_HERE),
@@ -114,5 +115,33 @@ def run(res, tier, broken):
                 model_transitions_unknown=sorted(seen - ALL_TRANSITIONS))
 
 
+def native_reset(res, tier, broken):
+    """real OS threads (harness/nat_evreset.c): waiters queued before the set return although the object is reset right
+    after it, before they have run again"""
+    import subprocess
+    exe = C.cc_harness("nat_evreset", ["nat_evreset.c"], "plain")
+    n = 0
+    for _ in range(1 if tier == "quick" and not broken else 4):
+        n += 1
+        try:
+            p = subprocess.run([exe], stdout=subprocess.PIPE, stderr=subprocess.STDOUT, timeout=120)
+            rc, out = p.returncode, p.stdout.decode("utf-8", "replace")
+        except subprocess.TimeoutExpired:
+            rc, out = -999, "timeout"
+        if rc != 0:
+            res.violation("a set wakes every waiter blocked before it (native run): " + (out.strip().split("\n")[-1][:400] or "exit %s" % rc),
+                          {"native": "nat_evreset", "exit": rc, "output": out[-1500:]})
+            break
+    res.add_cov(native_set_then_reset_runs=n)
+
+
 def replay(res, path):
+    import json
+    rep = json.load(open(path))
+    if rep.get("native") == "nat_evreset":
+        import subprocess
+        exe = C.cc_harness("nat_evreset", ["nat_evreset.c"], "plain")
+        p = subprocess.run([exe], stdout=subprocess.PIPE, stderr=subprocess.STDOUT, timeout=120)
+        print(p.stdout.decode("utf-8", "replace")[-1500:])
+        return 1 if p.returncode != 0 else 0
     return vs.replay("sc_evfut", SOURCES, path, validate)
